@@ -173,3 +173,4 @@ open CoreDhcp
 #print axioms SYS_file_address4
 #print axioms SYS_frame4
 #print axioms SYS_file_address4_cfg
+#print axioms SYS_C17_delivered4
